@@ -399,6 +399,9 @@ func runC03(r *mc.Report, e *Env) {
 	})
 	defer debug.SetGCPercent(debug.SetGCPercent(400)) // many short-lived proofs over a small live heap
 	runC03Conc(r, e)                                  // every worker explores its share of the schedules
+	if freeRuns > 0 {                                 // race-detector pass: only the concurrent scenarios
+		return
+	}
 	if e.Of <= 1 || e.Shard == e.Of-1 {
 		c03Oracle(r, e)
 		c03DefaultAccumulators(r)
